@@ -264,6 +264,10 @@ def gen_case(rng, stream=None):
     if rng.random() < 0.3:        # the same table under other options
         case["variants"].append({"text": table_text(top_lines), "opts": gen_opts(rng, g, False)})
     case["evolve"] = gen_evolution(rng, g)
+    # undeclare one dependency between the build and the expansion: findSetupProduct then finds nothing while
+    # getSetupVersion still reports the version (the model's spv / sv); outside the property's premise -> oracle (i) + never_foreign only
+    case["tamper"] = [rng.choice(g["names"][1:])] if rng.random() < 0.07 else []
+    case["cli_check"] = rng.random() < 0.25          # also run `eups expandtable` itself and compare with the API call
     case["expanded_deps"] = []
     if stream == "cf" and rng.random() < 0.4:       # installed products usually carry expanded tables
         case["expanded_deps"] = [[n, v] for n, v, _ in g["decl"] if (n, v) != (topn, topv) and rng.random() < 0.6]
